@@ -1,16 +1,17 @@
 PROPERTY = "C08"
 EXPLANATION = ("Thin partial claim: the built-in operator fixity table (real OpTable::get on an empty user table, concrete enumeration of the "
                "documented spellings) and the span algebra every parser action and 'spans delimit the text' statement is built from "
-               "(Span::new/to/between/until/with_*/subspan/from_offset, Location::shift; full u32 domain). The shift/reduce resolver, the "
+               "(Span::new/to/between/until/with_*/subspan/from_offset, Location::shift; full u32 domain). The shift/reduce step and shrink_hidden_spans are under Verus contracts; the "
                "layout algorithm, the tokenizer and the grammar are NOT under contract.")
 ASSUMPTIONS = [
     "OpTable::get: the built-in table is checked on an empty user map; precedence of user declarations over built-ins is only checked structurally in Verus (C08/infix/OpTable_get): a one-entry FnvMap lookup with a concrete key gave no CBMC result in 600 s, and std HashMap::get could not be stubbed (signature matching failed on the allocator parameter)",
     "reparse step: `make_op` is an uninterpreted constructor, trees and operator occurrences are opaque; at least two operands are on the stack when an operator is (algorithm invariant, assumed)",
     "spans are well formed (start <= end), the invariant Span::new establishes",
+    "shrink unit: the AST is projected on spans and last sub-expressions (arena references are boxes, unread payloads opaque); slice patterns are desugared to length tests (R-slice); Span::new's ordering contract is assumed there and proved by the Kani harness C08/span/new_contract; `visible_end` (which sub-expression ends each kind of expression) is my specification, taken from the grammar",
     "termination not proved by Kani",
 ]
 NOT_UNDER_CONTRACT = ["parser/src/infix.rs reparse as a whole (the per-operator shift/reduce block IS under contract; the loop, the Infixes iterator, error recovery and the final fold are not: no grouping theorem)", "parser/src/layout.rs layout_next_token",
-                      "parser/src/token.rs tokenizer", "parser/src/grammar.lalrpop", "parser/src/lib.rs shrink_hidden_spans"]
+                      "parser/src/token.rs tokenizer", "parser/src/grammar.lalrpop", "where shrink_hidden_spans is applied (grammar actions)"]
 POS = "base/src/pos.rs"
 INFIX = "parser/src/infix.rs"
 
@@ -42,5 +43,7 @@ def obligations(tier):
                  clause="the shift/reduce step of the operator-precedence re-parse: lower precedence or equal+both-left => reduce (group left), higher or equal+both-right => shift (group right), equal precedence with different associativity => ConflictingFixities error; stacks change exactly accordingly"),
             dict(engine="verus", unit="infix", function="OpTable::get", name="C08/infix/OpTable_get", source=INFIX + "::OpTable::get",
                  clause="structure check: user table consulted first, built-in table (closure body, named by an env helper) only when the name is not declared")]
+    out += [dict(engine="verus", unit="shrink", function="shrink_hidden_spans", name="C08/parser/shrink_hidden_spans", source="parser/src/lib.rs::shrink_hidden_spans",
+                 clause="span shrinking and block flattening against a specification of where each expression kind visibly ends: a singleton block is its expression; an expression that ends in a sub-expression keeps its start and ends where that sub-expression ends; all other nodes are untouched")]
     out += [k("gluon_parser", INFIX, "c08__builtin_ops__" + n, "built-in " + c, [INFIX + "::OpTable::get"]) for n, c in ops]
     return out
